@@ -4,6 +4,7 @@ SPECIFICATION Spec
 CONSTANTS Grid = 4
           MaxBlocks = 3
           CaseBlocks = 3
+          WithMatchers = FALSE
 INVARIANT C15_SelectionSatisfiesProperty
 INVARIANT FunctionalFormAgrees
 INVARIANT StackBounded
